@@ -110,6 +110,49 @@ def check_name_capture(chk):
                           "generated setters call `v.value()` on the schema type's class; a <type name='value'> yields "
                           "`class value : required_base<..., value>` in which `value` names the constructor, and no validator "
                           "rejects that name: accepted schema, header does not compile")
+    # (3) namespace-scope capture: generated code inside `<schema>::types` / `<schema>::messages` (and the detail
+    #     namespaces) writes `std::...`; a class or alias named `std` declared in those namespaces - a public type or a
+    #     message - is found first by the lookup of the name before `::` (functions are ignored by that lookup, types are
+    #     not).  Either no template writes an unqualified `std::`, or the validator rejects that name for public types
+    #     and for messages.
+    uses_std = None
+    for fc in gen.format_calls(f):
+        if fc.kind == "format" and fc.template and re.search(r"(?<![:\w])std::", gen.render_literal_text(fc.template)):
+            uses_std = fc.where
+            break
+    if uses_std:
+        guards = []          # functions that throw under a comparison of a name with "std"
+        for fn in gen.sbeppc_functions(f):
+            if "cpp_validator" not in fn["qn"]:
+                continue
+            throws = [x for x in walk(fn["body"]) if (x.get("callee") or {}).get("name") == "throw_error"]
+            cmp_std = [x for x in walk(fn["body"]) if x.get("k") in ("BinaryOperator", "CXXOperatorCallExpr") and x.get("op") == "=="
+                       and any(y.get("str") == "std" for y in walk(x)) and any(y.get("k") == "MemberExpr" and y.get("name") == "name" for y in walk(x))]
+            if throws and cmp_std and fn["name"] != "validate_schema_name" and fn["name"] not in guards:
+                guards.append(fn["name"])
+        callers = {}
+        for fn in f["functions"]:
+            if "/sbeppc/src/" not in fn.get("file", "") or fn.get("body") is None:
+                continue
+            for x in walk(fn["body"]):
+                cn = (x.get("callee") or {}).get("name")
+                if cn is None and x.get("k") in ("UnresolvedLookupExpr", "UnresolvedMemberExpr") and x.get("name") in guards:
+                    cn = x.get("name")      # call inside a generic lambda (`[](const auto& enc)`): still dependent
+                if cn in guards:
+                    import gguard
+                    callers.setdefault(cn, set()).add(fn.get("qn") or fn.get("base") or "")
+        who = " ".join(sorted(c for v in callers.values() for c in v))
+        covers_types = "validate_type_names" in who
+        covers_messages = "validate_message" in who
+        key = "capture:std"
+        if guards and covers_types and covers_messages:
+            chk.ok("G-NAME.capture", key, {"identifier": "std", "rejected_for": "public types and messages", "by": guards}, nontrivial=True)
+        else:
+            chk.violation("G-NAME.capture", key, uses_std,
+                          "generated code in <schema>::types / <schema>::messages writes `std::` unqualified, and the validators do "
+                          "not reject a %s named `std` (guards %s, reached from {%s}): such an entity hides the std namespace - "
+                          "accepted schema, headers do not compile"
+                          % ("public type or message" if not guards else ("message" if covers_types else "public type"), guards, who[:200]))
     for ident in ("args", "last"):
         if ident not in exposed:
             chk.ok("G-NAME.capture", "capture:" + ident, {"identifier": ident, "note": "no template calls a schema-named member unqualified "
